@@ -55,6 +55,25 @@ def _log(event: dict) -> None:
         os.close(fd)
 
 
+def _canon(x):
+    """Canonical form of a symbolic payload: the raw inputs of the two modes are not told apart."""
+    if isinstance(x, (tuple, list)):
+        if len(x) == 2 and x[0] == 'input':
+            return 'in'
+        return [_canon(i) for i in x]
+    return x
+
+
+def _sig(args) -> str:
+    """Short fingerprint of what an actor is fed with = where in the pipeline it sits."""
+    import hashlib
+
+    return hashlib.sha1(json.dumps(_canon(args)).encode()).hexdigest()[:8]
+
+
+_NONCE = itertools.count()
+
+
 def actors():
     """Symbolic actor classes. State and hyper-parameters go through forml's *default* Actor implementation
     (`get_state` = pickled `__dict__`, `set_state` restores the current params afterwards), so what is loaded is
@@ -72,11 +91,11 @@ def actors():
             self.origin = None  # {'tag','run','hp','prev'}: who produced the state this actor holds
 
         def apply(self, *args):
-            _log({'ev': 'apply', 'tag': self.tag, 'hp': self.hp, 'origin': self.origin, 'stateful': self.is_stateful()})
-            out = ('a', self.tag)
+            pos = _sig(args)
+            _log({'ev': 'apply', 'tag': self.tag, 'hp': self.hp, 'origin': self.origin, 'stateful': self.is_stateful(), 'pos': pos})
             if self.szout == 1:
-                return out
-            return tuple(('p', i, self.tag) for i in range(self.szout))
+                return ('a', self.tag, pos)
+            return tuple(('p', i, self.tag, pos) for i in range(self.szout))
 
         def get_params(self):
             return {'tag': self.tag, 'hp': self.hp, 'szout': self.szout, 'path': self.path}
@@ -91,8 +110,12 @@ def actors():
 
         def train(self, features, labels, /):
             prev = None if self.origin is None else [self.origin['tag'], self.origin['run']]
-            _log({'ev': 'train', 'tag': self.tag, 'hp': self.hp, 'prev': self.origin})
-            self.origin = {'tag': self.tag, 'run': int(os.environ.get('C04_RUN', '-1')), 'hp': self.hp, 'prev': prev}
+            pos = _sig((features,))
+            _log({'ev': 'train', 'tag': self.tag, 'hp': self.hp, 'prev': self.origin, 'pos': pos})
+            # pos: where the trainer sits (what it is fed with); nonce: this very state (two groups built from one
+            # builder, fed alike, still produce two states)
+            self.origin = {'tag': self.tag, 'run': int(os.environ.get('C04_RUN', '-1')), 'hp': self.hp, 'prev': prev,
+                           'pos': pos, 'nonce': f'{os.getpid()}-{next(_NONCE)}'}
 
     class OwnCodec(Stateful):
         """Flavour 1: a native actor with its own codec whose snapshot carries the hyper-parameters it was trained with;
@@ -158,8 +181,27 @@ def actors():
                 train[index].subscribe(trunk.train.publisher)
             return left.extend(head.apply.extend(tail=apply), head.train.extend(tail=train), head.label)
 
+    class Passes(flow.Operator):
+        """User operator running N consecutive passes of ONE builder object: every pass is a worker group of its own
+        (apply worker, trainer, train-path worker) - groups are not determined by their builder."""
+
+        def __init__(self, builder, passes: int):
+            self._builder = builder
+            self._passes = passes
+
+        def compose(self, scope):
+            left = scope.expand()
+            for _ in range(self._passes):
+                apply = flow.Worker(self._builder, 1, 1)
+                train = apply.fork()
+                if apply.stateful:
+                    apply.fork().train(left.train.publisher, left.label.publisher)
+                left = left.extend(apply, train)
+            return left
+
     assert Stateful.is_stateful() and not Stateless.is_stateful()
     _CACHE['actors'] = (Stateful, Stateless, Source, Labels)
+    _CACHE['passes'] = Passes
     _CACHE['flavours'] = (Stateful, OwnCodec, DictCodec)
     _CACHE['parallel'] = Parallel
     return _CACHE['actors']
@@ -230,11 +272,21 @@ def build(ast, hp: int = 0):
             stacker=_builder([stacker, False], hp),
             reducer=_builder([reducer, False], hp),
         )
+    if kind == 'passes':  # ['passes', [tag, stateful], n]: n groups built from one and the same builder object
+        actors()
+        return _CACHE['passes'](_builder(ast[1], hp), int(ast[2]))
+    if kind == 'mapreduce1':  # ['mapreduce1', [tag, stateful], n, reducer]: MapReduce(b, b, ..): one builder object n times
+        shared = _builder(ast[1], hp)
+        return payload.MapReduce(*([shared] * int(ast[2])), reducer=_builder([ast[3], False], hp))
     if kind == 'seq':
         return build(ast[1], hp) >> build(ast[2], hp)
     if kind == 'par':  # ['par', [expr, ...], merger_tag]: C04's own extension of the grammar (user-defined operator)
         actors()
         return _CACHE['parallel'](*(build(b, hp) for b in ast[1]), merger=_builder([ast[2], False], hp))
+    if kind == 'par1':  # ['par1', expr, n, merger]: the SAME operator instance in n branches (equal but distinct builders)
+        actors()
+        branch = build(ast[1], hp)
+        return _CACHE['parallel'](*([branch] * int(ast[2])), merger=_builder([ast[3], False], hp))
     raise ValueError(f'unknown expression kind {kind!r}')
 
 
@@ -494,6 +546,17 @@ def _chain(action: dict):
     return slot['instance'], (slot if level == 'runner' else None)
 
 
+def prune(action: dict) -> dict:
+    """Housekeeping (not a forml action): the directory of generation action['gen'] is removed from the registry."""
+    removed = []
+    for path, _, files in os.walk(action['registry']):
+        if os.path.basename(path) == str(action['gen']) and 'tag.toml' in files:
+            removed.append(path)
+    for path in removed:
+        shutil.rmtree(path)
+    return {'status': 'ok', 'pruned': len(removed), 'generations': listing_of(action['registry'])}
+
+
 def perform(action: dict) -> dict:
     """One lifecycle action against the registry at action['registry'] through the real runner.
 
@@ -508,6 +571,8 @@ def perform(action: dict) -> dict:
     from forml.provider.runner import dask as daskmod
     from forml.provider.runner import pyfunc
 
+    if action['kind'] == 'prune':
+        return prune(action)
     os.environ['C04_AST'] = json.dumps(action['ast'])
     os.environ['C04_HP'] = str(action['hp'])
     os.environ['C04_RUN'] = str(action['run'])
@@ -709,6 +774,53 @@ def extract_comp(comp) -> dict:
     def ref(node):
         return uid[id(node)] if id(node) in uid else next(extra)
 
+    # --- where every worker sits: the fingerprint of what it is fed with (as the symbolic actors compute it at run time)
+    kinds = [getattr(n.builder.actor, '__name__', '?') for n in order]
+    feeds: dict = collections.defaultdict(list)  # subscriber uid -> [(input port, publisher uid, output port)]
+    for (pub, sub), (oport, iport) in zip(edges, ports):
+        feeds[sub].append((iport, pub, oport))
+    memo: dict = {}
+
+    def published(u, oport):
+        if kinds[u] in ('Source', 'Labels'):
+            return ('input', 0)
+        if order[u].szout == 1:
+            return ('a', nodes[u][2], position(u))
+        return ('p', oport, nodes[u][2], position(u))
+
+    def position(u):
+        if u not in memo:
+            memo[u] = None  # (no cycles in a composition; a defect there must not hang the extraction)
+            if nodes[u][4]:  # a trainer: fed with the features on its Train port
+                fed = [published(pub, oport) for iport, pub, oport in feeds[u] if iport == 1000]
+            else:
+                fed = [published(pub, oport) for iport, pub, oport in sorted(feeds[u]) if iport < 1000]
+            memo[u] = _sig(tuple(fed))
+        return memo[u]
+
+    applied = {uid[id(n)] for n in visited(comp.apply)}
+    groups: dict = {}
+    for u, n in enumerate(nodes):
+        if not n[3] or kinds[u] in ('Source', 'Labels'):
+            continue
+        grp = groups.setdefault(n[1], {'gid': n[1], 'tag': n[2], 'apos': [], 'tpos': None})
+        if n[4]:
+            grp['tpos'] = position(u)
+        elif u in applied and feeds[u]:
+            grp['apos'].append(position(u))
+    # occurrence tag of a stateful group for the model: builder * 100 + rank among the groups built from that builder
+    # (ranked by where they sit, so that independently expanded compositions number their groups alike)
+    persistent_gids = [gids[g] for g in comp.persistent]
+    ranked: dict = collections.defaultdict(list)
+    for grp in groups.values():
+        # groups that are applied at the same place (the fold replicas of an ensemble) are ranked in the order of
+        # Composition.persistent: where they were trained is not visible in every composition (the evaluation's
+        # composition leaves the pipeline's train path dangling)
+        at = persistent_gids.index(grp['gid']) if grp['gid'] in persistent_gids else len(nodes)
+        ranked[grp['tag']].append((sorted(grp['apos']), at, str(grp['tpos']), grp['gid']))
+    ordinal = {member[-1]: k for members in ranked.values() for k, member in enumerate(sorted(members))}
+    occ = [n[2] * 100 + (ordinal.get(n[1], 0) if n[3] else 0) for n in nodes]
+
     # pylint: disable=protected-access
     # `Segment.copy`: a dangling Future tail is just a proxy of the publisher it is registered with
     from forml.flow._graph import atomic
@@ -717,7 +829,8 @@ def extract_comp(comp) -> dict:
     while isinstance(copy_tail, atomic.Future) and copy_tail is not comp.apply._head and copy_tail._input:
         (publisher,) = copy_tail._input
         copy_tail = publisher._node
-    return {'nodes': nodes, 'edges': edges, 'ports': ports, 'copy_tail': ref(copy_tail),
+    return {'nodes': nodes, 'occ': occ, 'edges': edges, 'ports': ports, 'copy_tail': ref(copy_tail),
+            'groups': [dict(groups[g], persistent=True) for g in persistent_gids if g in groups],
             'heads': [ref(comp.apply._head), ref(comp.apply._tail), ref(comp.train._head), ref(comp.train._tail)],
             'persistent': [nodes[next(k for k, n in enumerate(order) if n.gid == g)][2] for g in comp.persistent],
             'apply_stateful': sorted({nodes[uid[id(n)]][2] for n in visited(comp.apply) if n.stateful}),
@@ -902,6 +1015,21 @@ def impl_observations(events: list) -> list:
     return sorted(out, key=json.dumps)
 
 
+def _unique(observations: list) -> list:
+    out = []
+    for o in observations:
+        if o not in out:
+            out.append(o)
+    return out
+
+
+def _facts(res: dict) -> dict:
+    """What the oracle takes from the real expansion: which builders are applied statefully, and the persistent groups
+    with the place each one is applied at / was trained at."""
+    plain = (res.get('extract') or {}).get('plain') or {}
+    return {'apply_stateful': plain.get('apply_stateful'), 'groups': plain.get('groups')}
+
+
 def spec_violations(case: dict, steps: list) -> list:
     """The property itself, evaluated on what the real actors logged.  Independent of the model: uses only the
     history (incl. which long-lived handle an action works through), the registry listings the real code produced and
@@ -911,8 +1039,10 @@ def spec_violations(case: dict, steps: list) -> list:
     run_of: dict = {}  # generation -> run (= index of the train action that committed it)
     trained_in: dict = {}  # run -> occurrences trained in that run (they produced a state there)
     content: dict = {}  # generation -> the origins of its states as first listed
+    former: dict = {}  # generation number -> the runs of removed generations that carried the number before
     gens_before: list = []
     applied_stateful = set(case.get('apply_stateful') or [])
+    groups = case.get('groups') or []
     handles = case.get('handles') or {}
     pinned: dict = {}  # handle -> the generation its asset.Instance addresses once it has resolved `latest`
     serving: dict = {}  # handle -> (generation, hyper-parameter) its kept serving runner was built with
@@ -923,6 +1053,21 @@ def spec_violations(case: dict, steps: list) -> list:
         race_run = 100 + i
         raced = [ev for ev in step.get('race_events') or [] if ev['ev'] == 'train']
         mode = act['kind']
+        if mode == 'prune':
+            # housekeeping: the generation is gone (its number may be used again once it was the latest one); all the
+            # others are untouched
+            for g in list(content):
+                if g not in gens_after:
+                    content.pop(g, None)
+                    former.setdefault(g, set()).add(run_of.pop(g, None))
+            for g, origins in listing or []:
+                summary = [None if o is None else [o.get('tag'), o.get('run')] for o in origins]
+                if g in content and content[g] != summary:
+                    out.append((i, f'prune step {i}: generation {g} listed {content[g]} and now lists {summary}',
+                                'registry:generation-replaced'))
+            if listing is not None:
+                gens_before = gens_after
+            continue
         for g in gens_after:
             if g not in gens_before:
                 # committed by this action - or, while a non-training action ran, by the re-training racing with it
@@ -1007,9 +1152,21 @@ def spec_violations(case: dict, steps: list) -> list:
                 elif int(o['tag']) != tag:
                     out.append((i, f"{who} receives the state of actor {o['tag']} (generation {selected})",
                                 f'{mode}:state-of-other-actor'))
+                elif int(o['run']) != run_of.get(selected) and int(o['run']) in former.get(selected, ()):
+                    # the number of a removed generation was used again and the process still answers from its caches
+                    out.append((i, f"{who} receives the state of the REMOVED generation {selected} (run {o['run']}) although "
+                                   f'generation {selected} is now the one committed by run {run_of.get(selected)}',
+                                'stale-cache-after-number-reuse'))
                 elif int(o['run']) != run_of.get(selected):
                     out.append((i, f"{who} receives a state of training run {o['run']} but generation {selected} was "
                                    f'committed by run {run_of.get(selected)}', f'{mode}:state-of-other-generation'))
+                elif o.get('pos') is not None and ev.get('pos') is not None:
+                    # several groups may be built from one builder: the state must be the one of the group sitting here
+                    mine = [g for g in groups if g['tag'] == tag and ev['pos'] in g['apos']]
+                    if mine and o['pos'] not in {g['tpos'] for g in mine}:
+                        out.append((i, f"{who} applied at {ev['pos']} holds the state that another group built from the same "
+                                       f"builder produced (trained at {o['pos']}, the group(s) here at "
+                                       f"{sorted(str(g['tpos']) for g in mine)})", f'{mode}:state-of-other-group'))
             elif ev['ev'] == 'train':
                 p = ev.get('prev')
                 if p is None:
@@ -1021,9 +1178,26 @@ def spec_violations(case: dict, steps: list) -> list:
                                 'train:state-of-other-generation'))
                 elif int(p['tag']) != tag:
                     out.append((i, f"{who} is re-trained from the state of actor {p['tag']}", 'train:state-of-other-actor'))
+                elif int(p['run']) != run_of.get(selected) and int(p['run']) in former.get(selected, ()):
+                    out.append((i, f"{who} is re-trained from the state of the REMOVED generation {selected} (run {p['run']})",
+                                'stale-cache-after-number-reuse'))
                 elif int(p['run']) != run_of.get(selected):
                     out.append((i, f"{who} is re-trained from a state of run {p['run']}, generation {selected} is of run "
                                    f'{run_of.get(selected)}', 'train:state-of-other-generation'))
+        # groups built from one builder hold states of their own: as many different states as groups are applied
+        if mode != 'train' and selected is not None and res.get('status') == 'ok':
+            held: dict = collections.defaultdict(list)
+            for ev in step['events']:
+                if ev['ev'] == 'apply' and ev.get('stateful') and (ev.get('origin') or {}).get('nonce') is not None:
+                    held[int(ev['tag'])].append(ev['origin']['nonce'])
+            for tag, nonces in held.items():
+                # (groups of one builder that sit at the same place and were trained at the same place are
+                # indistinguishable - the runner may even train them as one task: they count as one)
+                ngroups = len({(tuple(sorted(g['apos'])), g['tpos']) for g in groups if g['tag'] == tag})
+                if len(set(nonces)) < min(len(nonces), ngroups):
+                    out.append((i, f'{mode} step {i}: the {len(nonces)} applied actors of builder {tag} ({ngroups} persistent groups) '
+                                   f'hold only {len(set(nonces))} different state(s): groups built from one builder share a state',
+                                f'{mode}:groups-share-state'))
         if listing is not None:
             gens_before = gens_after
     return out
@@ -1076,6 +1250,12 @@ CORPUS_ASTS = [
     # a shortcut subscription (the merger hangs off the fork itself *and* off its siblings): Traversal.copy re-creates
     # the fork's subscriptions in another order (not copyFaithful), the depth-first order stays
     (_seq(_M(1), _par(_M(2), _M(3), ['wrap', NONE, NONE, [4, True]]), _M(5)), True),
+    # several groups built from ONE builder object (a group is not determined by its builder): consecutive passes of a
+    # user operator, MapReduce(b, b), the same operator instance in two branches (equal but distinct builders)
+    (_seq(_M(1), ['passes', [2, True], 2], _M(3)), True),
+    (_seq(['mapreduce1', [1, True], 2, 2], _M(3)), True),
+    (_seq(_M(1), ['par1', _seq(_M(2), _M(3)), 2, 4]), True),
+    (['passes', [1, True], 3], False),
 ]
 
 # `train!k`: the training process dies before the k+1-th micro-step of its commit; `apply~`: a re-training commits
@@ -1088,6 +1268,11 @@ CORPUS_HISTORIES = [
     ['apply', 'train', 'serve', 'train:1', 'apply:3', 'apply:2'],
     ['train', 'train!7', 'apply', 'perftrack', 'train!9', 'serve'],
     ['apply~', 'perftrack', 'train', 'serve~', 'apply'],               # the very first commit races with a load
+    # housekeeping: an administrator removes a generation - sparse listings [2,3] / [1,3] / the latest one removed
+    ['train', 'train', 'train', 'prune:1', 'train', 'apply:4', 'apply:2', 'apply:3', 'apply', 'serve:4', 'perftrack:3'],
+    ['train', 'train', 'train', 'prune:2', 'train', 'apply:1', 'apply:3', 'apply:4', 'train', 'serve:5', 'apply:2'],
+    ['train', 'train', 'prune:2', 'train', 'apply', 'apply:2', 'prune:1', 'train', 'perftrack', 'serve:3'],
+    ['train', 'apply:1', 'prune:1', 'train', 'apply:1', 'serve', 'perftrack:1', 'train'],  # the removed number is used again
 ]
 
 
@@ -1100,7 +1285,7 @@ def _parse_history(spec: list, rng=None) -> list:
         race = item.endswith('~')
         item = item.rstrip('~')
         item, _, crash = item.partition('!')
-        kind, _, gen = item.partition(':')
+        kind, _, gen = item.partition(':')  # (`prune:2`: an administrator removes generation 2 from the registry)
         out.append({'kind': kind, 'gen': int(gen) if gen else None, 'crash': int(crash) if crash else None, 'race': race,
                     'handle': handle or None, 'hp': (i * 7 + 3) % 10 if rng is None else rng.randint(0, 9)})
     return out
@@ -1132,6 +1317,13 @@ def retag(ast, counter=None):
     if k == 'stack':
         tags = [next(counter) for _ in range(4)]
         return ['stack', [retag(b, counter) for b in ast[1]], int(ast[2])] + tags
+    if k == 'passes':
+        return ['passes', [next(counter), bool(ast[1][1])], int(ast[2])]
+    if k == 'mapreduce1':
+        return ['mapreduce1', [next(counter), bool(ast[1][1])], int(ast[2]), next(counter)]
+    if k == 'par1':
+        inner = retag(ast[1], counter)
+        return ['par1', inner, int(ast[2]), next(counter)]
     return pipegen.retag(ast, counter)
 
 
@@ -1145,6 +1337,12 @@ def shape(ast) -> str:
         return 'par[' + '|'.join(shape(b) for b in ast[1]) + ']'
     if k == 'stack':
         return f'stk{ast[2]}[' + ','.join(shape(b) for b in ast[1]) + ']'
+    if k == 'passes':
+        return f"pass{ast[2]}[{'S' if ast[1][1] else 's'}]"
+    if k == 'mapreduce1':
+        return f"mr1x{ast[2]}[{'S' if ast[1][1] else 's'}]"
+    if k == 'par1':
+        return f'par1x{ast[2]}[{shape(ast[1])}]'
     return pipegen.shape(ast)
 
 
@@ -1209,6 +1407,18 @@ class C04(fw.Check):
                 if rng.random() < 0.7:
                     parts.append(_M(0, rng.random() < 0.8))
                 ast = retag(_seq(*parts))
+            elif r < 0.42:
+                # several groups from one builder object, between other stateful actors
+                form = rng.choice([['passes', [0, True], rng.choice([2, 2, 3])], ['mapreduce1', [0, True], rng.choice([2, 3]), 0],
+                                   ['par1', ast, 2, 0]])
+                parts = [form]
+                if rng.random() < 0.6:
+                    parts.insert(0, _M(0, rng.random() < 0.8))
+                if rng.random() < 0.7:
+                    parts.append(_M(0, rng.random() < 0.8))
+                if form[0] != 'par1' and rng.random() < 0.5:
+                    parts.insert(rng.randint(0, len(parts)), ast)
+                ast = retag(_seq(*parts))
             elif r < 0.65:
                 # bias towards several stateful mappers in a chain (where positions matter)
                 extra = [_M(0, rng.random() < 0.8) for _ in range(rng.choice([1, 2, 3]))]
@@ -1242,10 +1452,17 @@ class C04(fw.Check):
                 trained += 1  # upper bound of the generations that may exist
             if race:
                 trained += 1
+        if faults and trained >= 2 and rng.random() < 0.2:
+            # housekeeping in between (such histories run without crashes and races)
+            for _ in range(rng.choice([1, 1, 2])):
+                at = rng.randint(2, len(out))
+                out.insert(at, {'kind': 'prune', 'gen': rng.randint(1, trained), 'hp': 0, 'crash': None, 'race': False})
+            for act in out:
+                act['crash'], act['race'] = None, False
         return out
 
     def _jobs(self) -> list:
-        plan = {'subprocess': self.n(8, 60), 'fork': self.n(36, 400), 'inprocess': self.n(30, 340), 'handles': self.n(14, 160)}
+        plan = {'subprocess': self.n(8, 60), 'fork': self.n(38, 400), 'inprocess': self.n(34, 340), 'handles': self.n(14, 160)}
         jobs = []
         for iso, count in plan.items():
             for k, (ast, snk) in enumerate(self._asts(count)):
@@ -1359,13 +1576,18 @@ class C04(fw.Check):
     def _comp_sexp(c: dict):
         if 'error' in c:
             return ['error']
-        return ['comp', [list(n) for n in c['nodes']], [list(e) + list(p) for e, p in zip(c['edges'], c['ports'])]] + list(c['heads'])
+        # (the model's `tag` is the group occurrence - builder * 100 + rank -, not the builder: groups are not determined by it)
+        return ['comp', [[n[0], n[1], o, n[3], n[4]] for n, o in zip(c['nodes'], c['occ'])],
+                [list(e) + list(p) for e, p in zip(c['edges'], c['ports'])]] + list(c['heads'])
 
     def _model_line(self, job: dict, ext: dict, steps: typing.Optional[list] = None, expr=None) -> str:
         """The case for the model. Faults are told as they really happened: a crash only if the process died (with the
         number of completed micro-steps), a race only if the racing re-training ran and committed."""
         acts = []
         for i, a in enumerate(job['history']):
+            if a['kind'] == 'prune':
+                acts.append(['prune', int(a['gen'])])
+                continue
             res = steps[i]['result'] if steps else {}
             crash = res.get('done') if res.get('status') == 'crashed' else None
             race = [100 + i, (a['hp'] + 5) % 10] if res.get('raced') == 'ok' else None
@@ -1375,25 +1597,41 @@ class C04(fw.Check):
                 # (the levels above the instance remember nothing that matters: a fresh chain for the model)
                 via = ['abcdefgh'.index(str(a['handle'])) + 1, hspec['level'] == 'runner']
             acts.append([a['kind'], a['gen'], i, a['hp'], 1000 * (i + 1), crash, race, via])
+        if job['isolation'] == 'inprocess' and any(a['kind'] == 'prune' for a in job['history']):
+            acts.insert(0, ['process', 'shared'])  # one process: the TAGS/STATES caches stay warm across the actions
         if expr is not None:
             return sexp.dumps(['expr', expr, bool(job.get('sink')), acts])
         return sexp.dumps(['case', self._comp_sexp(ext['plain']), self._comp_sexp(ext['perf']), bool(job.get('sink')), acts,
                            int(ext['plain']['copy_tail'])])
 
     @staticmethod
-    def _model_steps(answer: str):
+    def _model_steps(answer: str, occurrences: bool = True):
+        """occurrences: the tags of the answer are group occurrences (builder * 100 + rank, see `extract_comp`); what the
+        real actors log is their builder - the comparison is per builder (the oracle tells the occurrences of one
+        builder apart by where they sit)."""
         m = sexp.num(sexp.loads(answer))
         if not isinstance(m, list) or m[0] != 'ok':
             return None
+
+        def builder(t):
+            return t // 100 if occurrences and isinstance(t, int) else t
+
+        def observation(o):
+            kind, tag, hp, state = o
+            if state != NONE:
+                state = [builder(state[0]), state[1], state[2], state[3] if state[3] == NONE else [builder(state[3][0]), state[3][1]]]
+            return [kind, builder(tag), hp, state]
+
         wf = m[1][1:3]
         tail_clean = m[1][3][-1]
-        ptags = m[2][1:]
+        ptags = [builder(t) for t in m[2][1:]]
         steps = []
         for st in m[3]:
             if st[0] == 'error':
                 steps.append({'status': 'error', 'error': st[1]})
             else:
-                steps.append({'status': 'ok', 'ngens': st[1], 'obs': sorted(st[2], key=json.dumps)})
+                steps.append({'status': 'ok', 'ngens': st[1], 'obs': sorted((observation(o) for o in st[2]), key=json.dumps),
+                              'keys': st[3] if len(st) > 3 else None})
         out = {'wf': wf, 'ptags': ptags, 'steps': steps, 'tail_clean': tail_clean}
         if len(m) > 4:
             out.update({'perfmodel': m[4][1], 'perfspec': m[4][2], 'copy_faithful': m[5][1], 'ports_ok': m[5][2], 'paths': m[5][3]})
@@ -1411,7 +1649,7 @@ class C04(fw.Check):
             raise fw.MachineryError(f"case {case} could not be run: {res['machinery']}")
         ext = res.get('extract') or {}
         steps = res['steps']
-        case['apply_stateful'] = (ext.get('plain') or {}).get('apply_stateful')
+        case.update(_facts(res))
         for what in ('extract_error', 'setup_error'):
             if what in res:
                 self.diverge('the code under test ' + ('does not expand the pipeline' if what == 'extract_error' else
@@ -1506,12 +1744,17 @@ class C04(fw.Check):
             if r['status'] == 'error':
                 continue
             impl_obs = impl_observations(st['events'])
-            if impl_obs != ms['obs']:
+            # (as sets: groups built from equal builders and fed alike are one dask task - C02's subject -, so the number
+            # of times an identical observation is logged is not the model's business)
+            if _unique(impl_obs) != _unique(ms['obs']):
                 self.diverge(f"what the stateful actors receive in {act['kind']}", {**case, 'step': i}, impl_obs[:10], ms['obs'][:10])
                 return
             ngens = len(r['generations']) if r.get('generations') is not None else None
             if ngens != ms['ngens']:
                 self.diverge(f"number of generations after {act['kind']}", {**case, 'step': i}, ngens, ms['ngens'])
+                return
+            if ms.get('keys') is not None and r.get('generations') is not None and [g for g, _ in r['generations']] != ms['keys']:
+                self.diverge(f"generations listed after {act['kind']}", {**case, 'step': i}, [g for g, _ in r['generations']], ms['keys'])
                 return
 
     def _process(self, jobs: list) -> None:
@@ -1537,7 +1780,7 @@ class C04(fw.Check):
             if k in answers and model is None:
                 raise fw.MachineryError(f'model driver rejected the case: {answers[k][:200]}')
             if ('expr', k) in answers and model is not None:
-                own = self._model_steps(answers[('expr', k)])
+                own = self._model_steps(answers[('expr', k)], occurrences=False)
                 if own is None:
                     raise fw.MachineryError(f"model driver rejected the expression: {answers[('expr', k)][:200]}")
                 self._compare_expansion(job, model, own)
@@ -1672,7 +1915,7 @@ class C04(fw.Check):
             if 'machinery' in res:
                 continue
             case = {'ast': job['ast'], 'history': job['history'], 'isolation': job['isolation'], 'handles': job.get('handles'),
-                    'apply_stateful': ((res.get('extract') or {}).get('plain') or {}).get('apply_stateful')}
+                    **_facts(res)}
             for i, what, sig in spec_violations(case, res.get('steps') or []):
                 self.violate(what, {'ast': job['ast'], 'sink': job['sink'], 'history': job['history'][: i + 1],
                                     'isolation': job['isolation'], 'handles': job.get('handles'), 'step': i}, sig)
@@ -1686,7 +1929,7 @@ class C04(fw.Check):
                                   'handles': w.get('handles'), 'package': self._package})
             if 'machinery' in res:
                 return False
-            case = dict(w, apply_stateful=((res.get('extract') or {}).get('plain') or {}).get('apply_stateful'))
+            case = dict(w, **_facts(res))
             return any(sig == signature and i == len(w['history']) - 1 for i, _, sig in spec_violations(case, res['steps']))
 
         self._setup()
@@ -1730,7 +1973,7 @@ class C04(fw.Check):
                               'isolation': w.get('isolation', 'fork'), 'handles': w.get('handles'), 'package': self._package})
         if 'machinery' in res:
             raise fw.MachineryError(res['machinery'])
-        case = dict(w, apply_stateful=((res.get('extract') or {}).get('plain') or {}).get('apply_stateful'))
+        case = dict(w, **_facts(res))
         for i, what, sig in spec_violations(case, res.get('steps') or []):
             return fw.Violation(what, w, sig, {'events': impl_observations(res['steps'][i]['events'])[:12]})
         return None
@@ -1787,6 +2030,10 @@ def leaf_stateful(ast):
         return [True] + [f for b in ast[1] for f in leaf_stateful(b)]
     if k == 'par':
         return [f for b in ast[1] for f in leaf_stateful(b)]
+    if k in ('passes', 'mapreduce1'):
+        return [bool(ast[1][1])] * int(ast[2])
+    if k == 'par1':
+        return leaf_stateful(ast[1]) * int(ast[2])
     return []
 
 
